@@ -27,7 +27,8 @@
 \*               frames, frames without childclass nested in frames with one);
 \*   order     : children that live in a frame are emitted after all direct children (and all frames at the
 \*               first child body that has a frame) instead of in creation order;
-\*   dropkey   : keyframes equal to the default state (unnamed, time 0) are not written, later keys move up;
+\*   dropkey   : keyframes equal to the default state (unnamed, time 0) are not written, later keys move up
+\*               (repaired in the repository; kept as a deviation that TLC can still attribute, see CurrentDevs);
 \*   nearint   : numbers within 1e-12 of an integer are printed as that integer at any precision (isint()).
 \* TLC decides that the ideal writer round-trips every model whose frames are contiguous (a model built through
 \* the API may interleave members and non-members of a frame, which no single <frame> element can express), and
@@ -57,6 +58,9 @@ CONSTANTS
 
 AllDevs == {"mainclass", "framectx", "order", "dropkey", "nearint"}
 ASSUME CodeDevs \subseteq AllDevs
+\* the deviations of the code as it stands: "dropkey" was repaired in the repository (fix c1e51b49a, default keys
+\* are written as empty elements), the others are recorded as known findings
+CurrentDevs == AllDevs \ {"dropkey"}
 
 DefKinds == LeafKinds \cup TopKinds            \* kinds with an entry in every default class
 ValKinds == LeafKinds \cup {"body"}            \* tree nodes that carry attribute values
